@@ -1208,6 +1208,10 @@ export class AnyOfConstsRuntype extends BaseRuntype {
     this.values = values;
   }
   protected describeTypeExpr(_ctx: DescribeContext): string {
+    if (this.values.length === 0) {
+      // a union without members (never | never) is never; "()" is not a type
+      return "never";
+    }
     const parts = this.values.map((it) => JSON.stringify(it));
     const inner = parts.join(" | ");
     return `(${inner})`;
@@ -1599,6 +1603,10 @@ export class AnyOfRuntype extends BaseRuntype {
     return buildUnionError(ctx, filtered, input);
   }
   protected describeTypeExpr(ctx: DescribeContext): string {
+    if (this.schemas.length === 0) {
+      // a union without members (never | never) is never; "()" is not a type
+      return "never";
+    }
     return `(${this.schemas.map((it) => describeTypeExpr(ctx, it)).join(" | ")})`;
   }
   override describeChildren(): Runtype[] {
@@ -1984,6 +1992,10 @@ export class AnyOfDiscriminatedRuntype extends BaseRuntype {
     return v.reportDecodeError(ctx, input);
   }
   protected describeTypeExpr(ctx: DescribeContext): string {
+    if (this.schemas.length === 0) {
+      // a union without members (never | never) is never; "()" is not a type
+      return "never";
+    }
     return `(${this.schemas.map((it) => describeTypeExpr(ctx, it)).join(" | ")})`;
   }
   override describeChildren(): Runtype[] {
